@@ -99,6 +99,54 @@ def cistrans(m, idx):
     return res
 
 
+def axial(m, idx):
+    """stored marks of cumulenes, in the same form as cistrans(): [t1, t2, x, y, sign] for the two chain ends t1, t2, the first
+    non-hydrogen, non-coordinate substituent x of t1 and y of t2 in _bonds order.  Odd chains (allenes) carry the mark on the central
+    atom, even chains with three or more double bonds on the central bond.  Naming the other substituent of an end inverts the sign,
+    exchanging the ends does not (the sign algebra itself is decided by C12)."""
+    res = []
+
+    def walk(prev, cur):
+        # follow double bonds away from prev
+        while True:
+            nxt = [x for x, b in m._bonds[cur].items() if x != prev and b._order == 2]
+            if len(nxt) != 1:
+                return cur
+            prev, cur = cur, nxt[0]
+
+    def ref(a, chain):
+        for x, bx in m._bonds[a].items():
+            if x not in chain and m._atoms[x].atomic_number != 1 and bx._order != 8:
+                return x
+
+    def chain_nb(a):
+        return {x for x, b in m._bonds[a].items() if b._order == 2}
+
+    for c, a in m._atoms.items():      # allenes
+        dbl = [x for x, b in m._bonds[c].items() if b._order == 2]
+        if a._stereo is None or len(dbl) != 2 or len(m._bonds[c]) != 2:
+            continue
+        t1, t2 = walk(c, dbl[0]), walk(c, dbl[1])
+        x, y = ref(t1, chain_nb(t1)), ref(t2, chain_nb(t2))
+        if x is None or y is None:
+            continue
+        res.append([idx[t1], idx[t2], idx[x], idx[y], 1 if a._stereo else 0])
+    for n, k, b in m.bonds():          # even cumulenes longer than one double bond
+        if b._stereo is None or b._order != 2:
+            continue
+        on = [x for x, bx in m._bonds[n].items() if x != k and bx._order == 2]
+        ok = [x for x, bx in m._bonds[k].items() if x != n and bx._order == 2]
+        if not on and not ok:
+            continue      # a simple alkene: cistrans()
+        t1 = walk(k, n) if on else n
+        t2 = walk(n, k) if ok else k
+        x, y = ref(t1, chain_nb(t1)), ref(t2, chain_nb(t2))
+        if x is None or y is None:
+            continue
+        res.append([idx[t1], idx[t2], idx[x], idx[y], 1 if b._stereo else 0])
+    return res
+
+
 def outcome(fn, *a, **kw):
     """call fn; classify the outcome: ('ok', value) | ('valueerror', name) | ('foreign', name)"""
     try:
